@@ -8,7 +8,17 @@
    selected case of every switch tag, number of elements of every ranged-over expression), every context state,
    every program of the generated-code shape (spec/RenderSpec.v [node]: literals, expressions, nested templates
    and block closures, templ.Join, templ.Flush, templ.Raw, hand-written components, if/else-if/else, for, switch,
-   conditional and boolean attributes - nested to any depth), every pool content and every pool choice. *)
+   conditional and boolean attributes, and hand-written components that are passed a block of children and render it
+   0, 1 or more times into the writer they were given, through a forwarding writer of their own (unlimited, or
+   failing after k bytes) or into a bytes.Buffer of their own - nested to any depth), every pool content and every
+   pool choice.
+
+   A block of children handed a writer that is not the enclosing render's buffer is a render of its own: it takes a
+   pooled buffer, flushes it into that writer when it returns and adopts the flush error (model/RenderSkel.v
+   closure_top).  [host_errs p] lists the error values of the limited writers of p's hand-written components; it is
+   [] for a program without such a component, and every statement below then reads exactly as before that
+   component existed in the model.  The buffer size is positive (runtime.DefaultBufferSize; bufio.NewWriterSize
+   replaces a size <= 0 by 4096). *)
 From Coq.Strings Require Import Byte String.
 From Coq Require Import List NArith Arith.
 Import ListNotations.
@@ -22,7 +32,7 @@ Theorem C10_nil_means_all :
   forall (sink_st : Type) (sink : sink_st -> bytes -> nat * option err * sink_st) (cap : nat) (sw flusher : bool)
          (esc : bytes -> bytes) (env : list nat -> N -> bytes * option N) (benv : list nat -> N -> bool)
          (senv cnt : list nat -> N -> nat) (cancel : option N),
-  (forall s p, fst (fst (sink s p)) <= length p) ->
+  (forall s p, fst (fst (sink s p)) <= length p) -> 0 < cap ->
   forall pool choice g body (w0 : world sink_st) w' pool',
   recv w0 = [] -> log w0 = [] ->
   render_top sink_st sink cap sw flusher esc env benv senv cnt cancel true pool choice g body w0 = (None, w', pool') ->
@@ -33,21 +43,23 @@ Print Assumptions C10_nil_means_all.
 (* Whatever happens, the bytes the destination accepted are a prefix of the document.  If the destination ever
    refused (returned an error; or took fewer bytes than a flush offered without an error -> io.ErrShortWrite;
    x is the first such refusal), Render's result is non-nil; it is that very error, unless the program had
-   already failed by itself, in which case it is the program's error; with no failure in the program it is
-   that very error. *)
+   already failed by itself, in which case it is the program's error (or a limited writer of one of its
+   hand-written components had failed, in which case it may be that writer's error); with no failure in the program
+   and no such writer it is that very error. *)
 Theorem C10_fail_stop :
   forall (sink_st : Type) (sink : sink_st -> bytes -> nat * option err * sink_st) (cap : nat) (sw flusher : bool)
          (esc : bytes -> bytes) (env : list nat -> N -> bytes * option N) (benv : list nat -> N -> bool)
          (senv cnt : list nat -> N -> nat) (cancel : option N),
-  (forall s p, fst (fst (sink s p)) <= length p) ->
+  (forall s p, fst (fst (sink s p)) <= length p) -> 0 < cap ->
   forall pool choice g body (w0 : world sink_st) res w' pool',
   recv w0 = [] -> log w0 = [] ->
   render_top sink_st sink cap sw flusher esc env benv senv cnt cancel true pool choice g body w0 = (res, w', pool') ->
   prefix (recv w') (fst (denote esc env benv senv cnt cancel (Templ g body) [])) /\
   (forall x, first_refusal (log w') = Some x ->
      res <> None /\
-     (res = Some x \/ (res = snd (denote esc env benv senv cnt cancel (Templ g body) []) /\ snd (denote esc env benv senv cnt cancel (Templ g body) []) <> None)) /\
-     (snd (denote esc env benv senv cnt cancel (Templ g body) []) = None -> res = Some x)).
+     (res = Some x \/ (res = snd (denote esc env benv senv cnt cancel (Templ g body) []) /\ snd (denote esc env benv senv cnt cancel (Templ g body) []) <> None) \/
+      (exists y, res = Some y /\ In y (host_errs (Templ g body)))) /\
+     (snd (denote esc env benv senv cnt cancel (Templ g body) []) = None -> host_errs (Templ g body) = [] -> res = Some x)).
 Proof. exact fail_stop. Qed.
 Print Assumptions C10_fail_stop.
 
@@ -57,11 +69,12 @@ Theorem C10_render_meets_spec :
   forall (sink_st : Type) (sink : sink_st -> bytes -> nat * option err * sink_st) (cap : nat) (sw flusher : bool)
          (esc : bytes -> bytes) (env : list nat -> N -> bytes * option N) (benv : list nat -> N -> bool)
          (senv cnt : list nat -> N -> nat) (cancel : option N),
-  (forall s p, fst (fst (sink s p)) <= length p) ->
+  (forall s p, fst (fst (sink s p)) <= length p) -> 0 < cap ->
   forall pool choice g body (w0 : world sink_st) res w' pool',
   recv w0 = [] -> log w0 = [] ->
   render_top sink_st sink cap sw flusher esc env benv senv cnt cancel true pool choice g body w0 = (res, w', pool') ->
-  spec_ok (fst (denote esc env benv senv cnt cancel (Templ g body) [])) (snd (denote esc env benv senv cnt cancel (Templ g body) [])) res (recv w') (log w').
+  spec_ok (fst (denote esc env benv senv cnt cancel (Templ g body) [])) (snd (denote esc env benv senv cnt cancel (Templ g body) []))
+          (host_errs (Templ g body)) res (recv w') (log w').
 Proof. exact render_top_spec. Qed.
 Print Assumptions C10_render_meets_spec.
 
@@ -73,7 +86,7 @@ Theorem C10_expr_error_position :
   forall (sink_st : Type) (sink : sink_st -> bytes -> nat * option err * sink_st) (cap : nat) (sw flusher : bool)
          (esc : bytes -> bytes) (env : list nat -> N -> bytes * option N) (benv : list nat -> N -> bool)
          (senv cnt : list nat -> N -> nat) (cancel : option N),
-  (forall s p, fst (fst (sink s p)) <= length p) ->
+  (forall s p, fst (fst (sink s p)) <= length p) -> 0 < cap ->
   forall pool choice (g : bool) pre id file line col post v x (w0 : world sink_st) res w' pool',
   recv w0 = [] -> log w0 = [] ->
   (if g then cancel else None) = None ->
@@ -81,8 +94,12 @@ Theorem C10_expr_error_position :
   env [] id = (v, Some x) ->
   render_top sink_st sink cap sw flusher esc env benv senv cnt cancel true pool choice g (pre ++ Expr id file line col :: post) w0 = (res, w', pool') ->
   prefix (recv w') (fst (seq_d node (fun n => denote esc env benv senv cnt cancel n []) pre)) /\
-  (first_refusal (log w') = None -> res = Some (ETempl file line col (EExpr x))) /\
-  (forall z, first_refusal (log w') = Some z -> res = Some (ETempl file line col (EExpr x)) \/ res = Some z).
+  (first_refusal (log w') = None ->
+     res = Some (ETempl file line col (EExpr x)) \/
+     (exists z, res = Some z /\ In z (host_errs (Templ g (pre ++ Expr id file line col :: post))))) /\
+  (forall z, first_refusal (log w') = Some z ->
+     res = Some (ETempl file line col (EExpr x)) \/ res = Some z \/
+     (exists z', res = Some z' /\ In z' (host_errs (Templ g (pre ++ Expr id file line col :: post))))).
 Proof. exact expr_error_position. Qed.
 Print Assumptions C10_expr_error_position.
 
@@ -93,13 +110,14 @@ Theorem C10_program_error_returned :
   forall (sink_st : Type) (sink : sink_st -> bytes -> nat * option err * sink_st) (cap : nat) (sw flusher : bool)
          (esc : bytes -> bytes) (env : list nat -> N -> bytes * option N) (benv : list nat -> N -> bool)
          (senv cnt : list nat -> N -> nat) (cancel : option N),
-  (forall s p, fst (fst (sink s p)) <= length p) ->
+  (forall s p, fst (fst (sink s p)) <= length p) -> 0 < cap ->
   forall pool choice g body (w0 : world sink_st) res w' pool' y,
   recv w0 = [] -> log w0 = [] ->
   render_top sink_st sink cap sw flusher esc env benv senv cnt cancel true pool choice g body w0 = (res, w', pool') ->
   snd (denote esc env benv senv cnt cancel (Templ g body) []) = Some y ->
-  (first_refusal (log w') = None -> res = Some y) /\
-  (forall x, first_refusal (log w') = Some x -> res = Some y \/ res = Some x) /\
+  (first_refusal (log w') = None -> res = Some y \/ (exists z, res = Some z /\ In z (host_errs (Templ g body)))) /\
+  (forall x, first_refusal (log w') = Some x ->
+     res = Some y \/ res = Some x \/ (exists z, res = Some z /\ In z (host_errs (Templ g body)))) /\
   prefix (recv w') (fst (denote esc env benv senv cnt cancel (Templ g body) [])).
 Proof. exact program_error_returned. Qed.
 Print Assumptions C10_program_error_returned.
@@ -143,8 +161,30 @@ Theorem C10_no_spin_under_contract :
   log w0 = [] ->
   render_top sink_st sink cap sw flusher esc env benv senv cnt cancel true pool choice g body w0 = (res, w', pool') ->
   ~ In LSpin (log w').
-Proof. exact render_top_no_spin. Qed.
+Proof. exact no_spin_under_contract. Qed.
 Print Assumptions C10_no_spin_under_contract.
+
+(* A block of children (`@c() { ... }`) that the hand-written component c renders into a writer w of its own - any
+   writer that is not the enclosing render's *runtime.Buffer - `times` times: each render takes a pooled buffer,
+   flushes it into w when it returns and adopts the flush error.  If the last render returns nil, w has received
+   exactly the block's output, that many times, and has never refused; otherwise w has received a prefix of it and
+   the error is the block's own failure, w's first refusal, or the error of a limited writer inside the block. *)
+Theorem C10_block_on_a_writer_of_the_components_own :
+  forall (sink_st : Type) (sink : sink_st -> bytes -> nat * option err * sink_st) (cap : nat) (sw flusher : bool)
+         (esc : bytes -> bytes) (env : list nat -> N -> bytes * option N) (benv : list nat -> N -> bool)
+         (senv cnt : list nat -> N -> nat) (cancel : option N),
+  (forall s p, fst (fst (sink s p)) <= length p) -> 0 < cap ->
+  forall ch path times (w : world sink_st) r w',
+  first_refusal (log w) = None ->
+  closure_times (closure_top sink_st sink flusher true
+                   (seq_r sink_st node (fun c => run sink_st sink cap sw flusher esc env benv senv cnt cancel c path) ch)) times w = (r, w') ->
+  let g := denote esc env benv senv cnt cancel (Host HPass times ch) path in
+  match r with
+  | None => recv w' = recv w ++ fst g /\ snd g = None /\ first_refusal (log w') = None
+  | Some y => prefix (recv w') (recv w ++ fst g) /\ (snd g = Some y \/ first_refusal (log w') = Some y \/ In y (flat_map host_errs ch))
+  end.
+Proof. exact block_meets_spec. Qed.
+Print Assumptions C10_block_on_a_writer_of_the_components_own.
 
 (* The destination is a buffered writer of the CALLER (a *bufio.Writer of any size in front of any writer): the
    caller renders into it and then flushes it.  Stated on the writer behind the caller's: it is handed a prefix of
@@ -161,7 +201,7 @@ Theorem C10_buffered_destination :
   forall pool choice g body (s0 : inner_st),
   let o := render_wrapped inner_st inner size cap esc env benv senv cnt cancel pool choice g body s0 in
   spec_wrap_ok (fst (denote esc env benv senv cnt cancel (Templ g body) [])) (snd (denote esc env benv senv cnt cancel (Templ g body) []))
-               (wo_res o) (wo_fres o) (wo_got o) (wo_log1 o) (wo_log2 o) 0 /\
+               (host_errs (Templ g body)) (wo_res o) (wo_fres o) (wo_got o) (wo_log1 o) (wo_log2 o) 0 /\
   wo_marks o = [] /\ wo_after o = bw_fresh.
 Proof. exact wrapped_spec. Qed.
 Print Assumptions C10_buffered_destination.
@@ -207,6 +247,14 @@ Lemma C10_spin_witness :
     = [(Some ESpin, [])].
 Proof. exact spin_witness. Qed.
 
+(* what the block's own deferred release is for (generator.go writeTemplBuffer inside writeBlockTemplElementExpression):
+   a block { abc } rendered by a hand-written component through a forwarding writer of its own, buffer size 4,
+   destination that never fails.  With the release the destination gets abc; without it the component's writer is
+   never called, Render returns nil and the output is lost. *)
+Lemma C10_block_without_own_release :
+  block_view true = (None, bs "abc", []) /\ block_view false = (None, [], []).
+Proof. exact block_without_own_release. Qed.
+
 (* non-vacuity: a program with a literal, two expressions (the second failing), a nested template, join, flush, raw,
    a hand-written component, if / else-if / else, a for loop with a per-iteration expression (failing in iteration 2
    when asked to), a switch and a boolean attribute; cap = 4; the destination fails after 9 bytes, or never *)
@@ -251,6 +299,43 @@ Example C10_ex_loop_iteration_fails :
 Proof. vm_compute. reflexivity. Qed.
 Example C10_ex_cancelled : ex_render false (Some 1%N) false 0%N 0 = (Some (ECtx 1%N), []).
 Proof. vm_compute. reflexivity. Qed.
+(* hand-written components that are passed a block: <x>{ v }</x> through a forwarding writer (tee), twice into the
+   writer the component was given, not at all, through a writer that fails after 5 bytes (the component reporting
+   its writer itself / returning what the block returned), into a bytes.Buffer that is copied afterwards; a block whose
+   expression fails; cap = 4 *)
+Definition exh_block (failing : bool) : list node := [Lit (bs "<x>"); Expr (if failing then 2%N else 1%N) (bs "t.templ") 9%N 3%N; Lit (bs "</x>")].
+Definition exh_render (k : hkind) (times : nat) (failing : bool) (mode : N) (limit : nat) :=
+  ex_view (render_top fsink fsink_step 4 false true html_escape (ex_env false) ex_benv ex_senv ex_cnt None true [] 0 true
+             [Lit (bs "["); Host k times (exh_block failing); Lit (bs "]")] (ex_world mode limit)).
+Example C10_ex_host_tee : exh_render (HFwd None 1%N false) 1 false 0%N 0 = (None, bs "[<x>&lt;v&gt;</x>]").
+Proof. vm_compute. reflexivity. Qed.
+Example C10_ex_host_twice : exh_render HPass 2 false 0%N 0 = (None, bs "[<x>&lt;v&gt;</x><x>&lt;v&gt;</x>]").
+Proof. vm_compute. reflexivity. Qed.
+Example C10_ex_host_tee_twice : exh_render (HFwd None 1%N true) 2 false 0%N 0 = (None, bs "[<x>&lt;v&gt;</x><x>&lt;v&gt;</x>]").
+Proof. vm_compute. reflexivity. Qed.
+Example C10_ex_host_not_at_all : exh_render (HFwd None 1%N false) 0 false 0%N 0 = (None, bs "[]").
+Proof. vm_compute. reflexivity. Qed.
+Example C10_ex_host_capture : exh_render HCapture 1 false 0%N 0 = (None, bs "[<x>&lt;v&gt;</x>]").
+Proof. vm_compute. reflexivity. Qed.
+(* the component's own writer fails after 5 bytes: its error comes back, a prefix has arrived *)
+Example C10_ex_host_limit_own : exh_render (HFwd (Some 5) 8%N true) 1 false 0%N 0 = (Some (EComp 8%N), bs "[<x>&l").
+Proof. vm_compute. reflexivity. Qed.
+Example C10_ex_host_limit_trust : exh_render (HFwd (Some 5) 8%N false) 1 false 0%N 0 = (Some (EComp 8%N), bs "[<x>&l").
+Proof. vm_compute. reflexivity. Qed.
+(* the limit is not reached: nothing fails *)
+Example C10_ex_host_limit_not_reached : exh_render (HFwd (Some 50) 8%N false) 1 false 0%N 0 = (None, bs "[<x>&lt;v&gt;</x>]").
+Proof. vm_compute. reflexivity. Qed.
+(* the block's expression fails: its error comes back; through the forwarding writer what the block wrote before has
+   arrived, the capturing component has written nothing of it *)
+Example C10_ex_host_block_fails :
+  exh_render (HFwd None 1%N false) 1 true 0%N 0 = (Some (ETempl (bs "t.templ") 9%N 3%N (EExpr 5%N)), bs "[<x>") /\
+  exh_render HCapture 1 true 0%N 0 = (Some (ETempl (bs "t.templ") 9%N 3%N (EExpr 5%N)), bs "[").
+Proof. split; vm_compute; reflexivity. Qed.
+(* the destination fails after 6 bytes while the block is written through the forwarding writer *)
+Example C10_ex_host_destination_fails : exh_render (HFwd None 1%N false) 1 false 1%N 6 = (Some (ESink 3%N), bs "[<x>&l").
+Proof. vm_compute. reflexivity. Qed.
+Example C10_ex_host_errs : host_errs (Templ true [Host (HFwd (Some 5) 8%N true) 1 [Host (HFwd None 2%N true) 1 []; Host (HFwd (Some 1) 9%N false) 2 []]]) = [EComp 8%N; EComp 9%N].
+Proof. reflexivity. Qed.
 (* the same program into the caller's bufio.Writer (size 8) in front of a writer that fails after 9 bytes / never *)
 Definition ex_wrapped (failing : bool) (mode : N) (limit : nat) :=
   let o := render_wrapped fsink fsink_step 8 4 html_escape (ex_env false) ex_benv ex_senv ex_cnt None [] 0 true (ex_body failing)
